@@ -323,8 +323,11 @@ type HEnv struct {
 	FnObj    HFnObj
 	IntKeys  map[int]string
 	NamedKey map[HKey]int
-	FnMap    map[string]func() int // functions held by a typed map
-	AnyFn    interface{}           // a function held by a dynamic member
+	NamedVar HVarFn                            // a defined type over the fast-call signature
+	RetErr   func(...interface{}) error        // variadic, but not returning interface{}
+	Strs     func(...fmt.Stringer) interface{} // variadic over another interface type
+	FnMap    map[string]func() int             // functions held by a typed map
+	AnyFn    interface{}                       // a function held by a dynamic member
 }
 
 // function-valued fields: unexported ones are not members; among promoted ones
@@ -339,6 +342,7 @@ type HFnObj struct {
 	g    func() int
 }
 type HKey string
+type HVarFn func(...interface{}) interface{}
 
 // embeds a pointer to its own type: Go resolves X at depth 0
 type HSelf struct {
@@ -505,7 +509,8 @@ func c16Handwritten(c *runner.Ctx, idx uint64) {
 	he := HEnv{A: 1, Fn: func(i int) int { return i * 2 }, Obj: &HEnvObj{N: 5}, Val: HValOuter{K: 2}, PVal: &HValOuter{K: 3}, XXX_Size: 4,
 		FnObj:   HFnObj{HFnA: HFnA{HFnDeep{F: func() int { return 1 }}}, HFnB: HFnB{F: func() string { return "s" }}, G: func() int { return 2 }, g: func() int { return 3 }},
 		IntKeys: map[int]string{1: "a"}, NamedKey: map[HKey]int{"a": 1},
-		FnMap: map[string]func() int{"f": func() int { return 5 }}, AnyFn: func() int { return 6 }}
+		FnMap: map[string]func() int{"f": func() int { return 5 }}, AnyFn: func() int { return 6 },
+		NamedVar: func(xs ...interface{}) interface{} { return len(xs) }, RetErr: func(...interface{}) error { return nil }, Strs: func(xs ...fmt.Stringer) interface{} { return len(xs) }}
 	fnI := func() int { return 3 }
 	hs := HShadow{HFuncs: HFuncs{Label: fnI, Cnt: 1}, Tag: func() int { return 9 }, Inner: HShadowInner{HFuncs{Label: fnI, Cnt: 2}}}
 	cases := []struct {
@@ -518,11 +523,12 @@ func c16Handwritten(c *runner.Ctx, idx uint64) {
 			{"ValM", -1}, {"[InnerM]", -1}, {"PtrM == nil", -1}, {"Obj.N", 1}, {"Obj.Get()", 1}, {"Obj.Set(3)", 1}, {"Obj.Missing()", 0}, {"HInner.InnerM()", 1}, {"valM(1)", 0}, {"Missing()", 0}, {"A()", 0}, {"Obj.n", 0},
 			{"Val.K", 1}, {"Val.IV", 1}, {"Val.InnerM()", 1}, {"Val.InnerPM()", -1}, {"Val.HInner.InnerPM()", -1}, {"PVal.K", 1}, {"PVal.InnerM()", 1}, {"PVal.InnerPM()", -1}, {"XXX_Size", 1}, {"XXX_Size + 1", 1},
 			{"FnObj.G()", 1}, {"FnObj.G() + 1", 1}, {"FnObj.g()", 0}, {"FnObj.F()", 1}, {"FnObj.F() + \"!\"", 1}, {"FnObj.HFnA.F() + 1", 1}, {"IntKeys[1]", 1}, {"IntKeys.a", -1}, {"NamedKey.a", -1}, {"NamedKey[\"a\"]", -1}, {"len(IntKeys)", 1},
-			{"FnMap.f()", 1}, {"FnMap.f() + 1", 1}, {"AnyFn()", -1}, {"AnyFn() + 1", -1}},
-			[]string{"A", "IV", "HInner", "Fn", "Obj", "ValM", "InnerM", "PtrM", "InnerPM", "unexpM", "Val", "PVal", "XXX_Size", "FnObj", "IntKeys", "NamedKey", "FnMap", "AnyFn"}},
+			{"FnMap.f()", 1}, {"FnMap.f() + 1", 1}, {"AnyFn()", -1}, {"AnyFn() + 1", -1},
+			{"NamedVar(1, 2)", 1}, {"NamedVar()", 1}, {"RetErr(1)", 1}, {"Strs()", 1}, {"Fn(1) + NamedVar(3)", 1}},
+			[]string{"A", "IV", "HInner", "Fn", "Obj", "ValM", "InnerM", "PtrM", "InnerPM", "unexpM", "Val", "PVal", "XXX_Size", "FnObj", "IntKeys", "NamedKey", "FnMap", "AnyFn", "NamedVar", "RetErr", "Strs"}},
 		{"*HEnv (pointer)", &he, []probe{{"PtrM", -1}, {"ValM", -1}, {"A", 1}, {"IV", 1}, {"Fn(2)", 1}, {"ValM(1)", 1}, {"InnerM()", 1}, {"PtrM()", 1}, {"InnerPM()", 1}, {"unexpM()", 0}, {"Obj.Set(3)", 1}, {"Obj.Get()", 1},
-			{"Val.InnerM()", 1}, {"Val.InnerPM()", -1}, {"PVal.InnerPM()", -1}, {"PVal.IV", 1}, {"XXX_Size", 1}, {"FnObj.F() + \"!\"", 1}, {"FnObj.g()", 0}, {"FnMap.f() + 1", 1}, {"AnyFn() + 1", -1}},
-			[]string{"A", "IV", "HInner", "Fn", "Obj", "ValM", "InnerM", "PtrM", "InnerPM", "unexpM", "Val", "PVal", "XXX_Size", "FnObj", "IntKeys", "NamedKey", "FnMap", "AnyFn"}},
+			{"Val.InnerM()", 1}, {"Val.InnerPM()", -1}, {"PVal.InnerPM()", -1}, {"PVal.IV", 1}, {"XXX_Size", 1}, {"FnObj.F() + \"!\"", 1}, {"FnObj.g()", 0}, {"FnMap.f() + 1", 1}, {"AnyFn() + 1", -1}, {"NamedVar(1)", 1}},
+			[]string{"A", "IV", "HInner", "Fn", "Obj", "ValM", "InnerM", "PtrM", "InnerPM", "unexpM", "Val", "PVal", "XXX_Size", "FnObj", "IntKeys", "NamedKey", "FnMap", "AnyFn", "NamedVar", "RetErr", "Strs"}},
 		{"HShadow (method over promoted func field)", hs, []probe{{"Label()", 1}, {"Label() + \"!\"", 1}, {"Inner.Label()", 1}, {"Inner.Label() + \"!\"", 1}, {"HFuncs.Label()", 1}, {"HFuncs.Label() + 1", 1},
 			{"Inner.HFuncs.Label() + 1", 1}, {"Tag()", 1}, {"Tag() + 1", 1}, {"HTagged2.Tag() + \"!\"", 1}, {"Cnt + 1", 1}, {"Other()", 1}, {"K", 1}},
 			[]string{"Label", "Tag", "Cnt", "Other", "K", "Inner", "HFuncs", "HTagged2"}},
@@ -537,6 +543,7 @@ func c16Handwritten(c *runner.Ctx, idx uint64) {
 		{"HSelf (embeds *HSelf)", HSelf{X: 1}, []probe{{"X", 1}, {"X + 1", 1}, {"HSelf", 1}, {"Y", 0}}, []string{"X", "HSelf"}},
 		{"*HSelf", &HSelf{HSelf: &HSelf{X: 2}, X: 1}, []probe{{"X", 1}, {"HSelf.X", 1}}, []string{"X", "HSelf"}},
 		{"map[string]func() int", map[string]func() int{"f": func() int { return 5 }}, []probe{{"f()", 1}, {"f() + 1", 1}}, []string{"f"}},
+		{"map[HKey]int (keys of a defined string type)", map[HKey]int{"a": 1}, []probe{{"a", -1}, {"a + 1", -1}}, []string{}},
 	}
 	for _, cs := range cases {
 		accepted := map[string]bool{}
